@@ -34,6 +34,7 @@ DIMS = {
     "pan": [(0x1A2B, bytes(range(0x10, 0x18))), (0xFFFE, b"\xff" * 7 + b"\x01"), (0x0001, b"\x00" * 7 + b"\x01")],
     "ieee": ["other", "same"],
     "prior": ["blank", "same-backup", "other-backup"],
+    "burn": ["no", "allowed"],     # the user's "burn the EUI64 into the manufacturing token once" switch (matters without the rewritable token)
 }
 
 
@@ -124,6 +125,8 @@ def make_info(ctx, c, variant=0):
     stack_specific = {}
     if c["hashed"] == "present":
         stack_specific = {"ezsp": {"hashed_tclk": bytes([0x90 + x] * 16).hex()}}
+    if c.get("burn") == "allowed":
+        stack_specific.setdefault("ezsp", {})["i_understand_i_can_update_eui64_only_once_and_i_still_want_to_do_it"] = True
     pan, epan = c["pan"]
     ni = zs.NetworkInfo(
         extended_pan_id=zt.ExtendedPanId(epan), pan_id=zt.PanId(pan ^ x), nwk_update_id=zt.uint8_t(c["update_id"]), nwk_manager_id=zt.NWK(0),
@@ -196,7 +199,10 @@ def one_case(version, rewritable, c):
             if gc != wc:
                 out.append(f"child table: read back {gc}, written {wc}")
         # EUI64: where the NCP can take it (rewritable token) or it already matches
-        can_write = ctx.ncp.rewritable or c["ieee"] == "same"
+        # ... or burn it once into the manufacturing token when the user allowed that and it is still blank
+        burned_before = c["prior"] != "blank" and c.get("burn") == "allowed" and not ctx.ncp.rewritable and c["ieee"] == "other"
+        can_burn = c.get("burn") == "allowed" and not ctx.ncp.rewritable and (not burned_before or c["prior"] == "same-backup")
+        can_write = ctx.ncp.rewritable or c["ieee"] == "same" or can_burn
         if can_write and gno.ieee != want_ieee:
             out.append(f"node IEEE: read back {gno.ieee}, written {want_ieee}")
         if got.tc_link_key.partner_ieee != gno.ieee:
@@ -252,7 +258,7 @@ def combos(tier):
             c[n] = v
             if emit(c):
                 yield c
-    pair_names = names if tier != "quick" else ["link_keys", "children", "tc_known", "hashed", "ieee", "prior", "nwk_fc"]
+    pair_names = names if tier != "quick" else ["link_keys", "children", "tc_known", "hashed", "ieee", "prior", "nwk_fc", "burn"]
     for a, b in itertools.combinations(pair_names, 2):
         for va in DIMS[a][1:]:
             for vb in DIMS[b][1:]:
